@@ -1,0 +1,9 @@
+//go:build !verif
+
+package layer4
+
+// verifBufRelease and verifPoint are instrumentation hooks used by the
+// runtime-verification harness; without the "verif" build tag they are no-ops.
+func verifBufRelease(_ []byte) {}
+
+func verifPoint(_ string) {}
